@@ -10,6 +10,7 @@
 From Coq Require Import List ZArith Bool.
 From SVC Require Import Base.AMap Model.Types Model.Handlers Model.EndBlock Model.Step
   Proofs.Inv Proofs.CtxOps Proofs.C16Proofs.
+From SVC Require Import Proofs.StepSpecs_ctx Proofs.GapC16.
 Import ListNotations.
 Open Scope Z_scope.
 
@@ -73,3 +74,94 @@ Print Assumptions C16_total_reached_removed.
 
 (* the hypotheses `Inv cfg s` above are those of every state inside EndBlock:
    Proofs/InvAll.v Reach_Inv, Inv_inside_end_block, fold_expire_phase, fold_new_phase *)
+
+(* ------------------------------------------------------------------ *)
+(* Block level, over reachable states (Proofs/GapC16.v) *)
+
+(* after the EndBlock in which the expiry of a context's batch is due, no request and no
+   response record of that batch (or an older one) remains - also when the next batch of the
+   same context is issued in the same block (frequency = timeout: the new records carry the
+   next batch number), and whatever other contexts expire or start in that block *)
+Theorem C16_end_block_cleanup : forall cfg s dt c rc r,
+  wf_cfg cfg -> Reach cfg s -> wf_op s (OEndBlock dt) ->
+  In (height s, c) (expq s) -> get c (ctxs s) = Some rc ->
+  rid_ctx r = c -> rid_batch r <= c_counter rc ->
+  get r (reqs (end_block cfg s dt)) = None /\ get r (resps (end_block cfg s dt)) = None.
+Proof. exact GapC16.C16_end_block_cleanup. Qed.
+Print Assumptions C16_end_block_cleanup.
+
+(* a finished context whose batch expires in this block is gone after the block: record, both
+   queue pointers, every request and response record; an unfinished one is still there with
+   the same static fields *)
+Theorem C16_end_block_finished_removed : forall cfg s dt c rc,
+  wf_cfg cfg -> Reach cfg s -> wf_op s (OEndBlock dt) ->
+  In (height s, c) (expq s) -> get c (ctxs s) = Some rc ->
+  let fin :=
+    c_state rc = Completed
+    \/ (c_state rc = Running
+        /\ (c_rep rc = false \/ (0 <= c_total rc /\ c_total rc <= c_counter rc))) in
+  let s' := end_block cfg s dt in
+  (fin ->
+     get c (ctxs s') = None /\ get c (expq_h s') = None /\ get c (newq_h s') = None
+     /\ In (EvCtxRemoved c) (log s')
+     /\ (forall r, rid_ctx r = c -> get r (reqs s') = None /\ get r (resps s') = None))
+  /\ (~ fin -> exists rc', get c (ctxs s') = Some rc'
+        /\ c_svc rc' = c_svc rc /\ c_cons rc' = c_cons rc /\ c_input rc' = c_input rc
+        /\ c_super rc' = c_super rc /\ c_rep rc' = c_rep rc /\ c_mod rc' = c_mod rc).
+Proof. exact GapC16.C16_end_block_finished_removed. Qed.
+Print Assumptions C16_end_block_finished_removed.
+
+(* a paused context whose batch expires stays, whatever its total (it is removed when it is
+   started again - C16_total_reached_removed - or killed) *)
+Theorem C16_paused_kept : forall cfg s dt c rc,
+  wf_cfg cfg -> Reach cfg s -> wf_op s (OEndBlock dt) ->
+  In (height s, c) (expq s) -> get c (ctxs s) = Some rc -> c_state rc = Paused ->
+  exists rc', get c (ctxs (end_block cfg s dt)) = Some rc'
+    /\ c_svc rc' = c_svc rc /\ c_cons rc' = c_cons rc /\ c_input rc' = c_input rc
+    /\ c_super rc' = c_super rc /\ c_rep rc' = c_rep rc /\ c_mod rc' = c_mod rc.
+Proof. exact GapC16.C16_paused_kept. Qed.
+Print Assumptions C16_paused_kept.
+
+(* "at all times": the no-orphans statement also holds between the per-context handlers of
+   the expiry phase and of the new-batch phase *)
+Theorem C16_no_orphans_inside_end_block : forall cfg s,
+  wf_cfg cfg -> Reach cfg s -> height s < HEIGHT_BOUND ->
+  (forall k, C16Proofs.no_orphans
+               (fold_left (expire_one cfg) (firstn k (due (expq s) (height s))) s))
+  /\ (let sx := fold_left (expire_one cfg) (due (expq s) (height s)) s in
+      forall k, C16Proofs.no_orphans
+                  (fold_left (new_one cfg) (firstn k (due (newq sx) (height sx))) sx)).
+Proof. exact GapC16.C16_no_orphans_inside_end_block. Qed.
+Print Assumptions C16_no_orphans_inside_end_block.
+
+(* The pending-request markers.  In the model both marker indexes are the flag r_active of the
+   request record.  CleanBatch of the implementation does not delete markers; the model deletes
+   the flag with the record.  The two agree because no request of the context is active when
+   CleanBatch runs: *)
+(* (i) batch already complete (the branch that skips the expiry loop) *)
+Theorem C16_no_marker_when_batch_done : forall cfg s c rc r q,
+  Inv cfg s -> get c (ctxs s) = Some rc -> c_bdone rc = true ->
+  In (r, q) (reqs s) -> rid_ctx r = c -> r_active q = false.
+Proof. exact GapC16.C16_no_marker_when_batch_done. Qed.
+Print Assumptions C16_no_marker_when_batch_done.
+
+(* (ii) after the expiry loop of the other branch *)
+Theorem C16_markers_cleared_before_clean : forall cfg s c,
+  wf_cfg cfg -> Inv cfg s -> In (height s, c) (expq s) ->
+  let rc := ctx_or_zero s c in
+  let s1 := fold_left (expire_req cfg) (active_rids s c (c_counter rc)) s in
+  forall r q, In (r, q) (reqs s1) -> rid_ctx r = c -> r_active q = false.
+Proof. exact GapC16.C16_markers_cleared_before_clean. Qed.
+Print Assumptions C16_markers_cleared_before_clean.
+
+(* DeleteActiveRequest rebuilds the by-binding marker key from the service name of the context
+   and the provider / expiration height of the compact request; AddActiveRequest used the
+   values at issue.  They are the same: none of these fields changes in any step while the
+   record exists *)
+Theorem C16_marker_key_stable : forall cfg s o r q q' rc rc',
+  wf_cfg cfg -> Inv cfg s -> wf_op s o ->
+  get r (reqs s) = Some q -> get r (reqs (fst (step cfg s o))) = Some q' ->
+  get (rid_ctx r) (ctxs s) = Some rc -> get (rid_ctx r) (ctxs (fst (step cfg s o))) = Some rc' ->
+  r_prov q' = r_prov q /\ r_exp q' = r_exp q /\ r_fee q' = r_fee q /\ c_svc rc' = c_svc rc.
+Proof. exact GapC16.C16_marker_key_stable. Qed.
+Print Assumptions C16_marker_key_stable.
